@@ -2192,7 +2192,7 @@ def replay(rec):
 
 CLAIM = {
     "tech": "Coq proof: generic theorems over a small setter/getter language (model/Props.v) for ALL values and ALL well-formed element states, instantiated on a catalogue of the public properties whose attribute codecs are the translated simple-type code of C11; exact correspondence of the extracted model on random assignment histories (fresh objects + corpus decks); direct oracle incl. save + re-open",
-    "text": "C09_get_set / C09_none / C09_reject / C09_frame / C09_history are proved for every state and value (so also from the element states only another producer writes: C09_get_set_moded / C09_get_set_horz_offset for the manual-layout store c:xMode + c:x of Legend.horz_offset, with the witness C09_ex_horz_offset_from_edge; placeholder geometry, whose setter reads the base placeholder and writes the displaced dimensions back, by C09_frame_placeholder / C09_get_set_placeholder over the Keep constructor); the catalogue (model/PropCatalogue.v) instantiates them for the public properties, with value domains and quanta taken from gen/GenC11.v; C09_catalogue_complete forces every settable property (regenerated from /repo each run) into the catalogue or the committed oracle-only list. The check compares the model's exact predicted outcome, read-back and element state with the implementation over random histories -- from fresh objects, corpus objects and schema-derived foreign pre-states (every enumeration value / alternative child / optional element of what a getter reads or a setter writes) -- and runs the property's statement directly (read-after-write, re-open, None, rejection leaves XML unchanged, sibling readings unchanged).",
-    "note": "proxy-level plumbing is hand-transcribed (tied by correspondence); oracle-only properties are not covered by a theorem; quantum bounds are proved for EMU, centipoints, percentages and rotation, the other float conversions are checked bit-exactly only; reject-with-unchanged-state is REFUTED by the model for the setters that mutate before validating (witness theorems + replay); save/re-open relies on lxml.",
+    "text": "save and re-open of ANY part is the identity on the element tree every getter reads (C09_reopen_tree / _cycles / _any_getter / _injective over model/XmlTree.v, a concrete generic XML writer and reader with no bound on depth, width or lengths, tied to lxml byte for byte on all 1492 XML parts of the corpus decks, random trees and malformed streams); C09_get_set / C09_none / C09_reject / C09_frame / C09_history are proved for every state and value (so also from the element states only another producer writes: C09_get_set_moded / C09_get_set_horz_offset for the manual-layout store c:xMode + c:x of Legend.horz_offset, with the witness C09_ex_horz_offset_from_edge; placeholder geometry, whose setter reads the base placeholder and writes the displaced dimensions back, by C09_frame_placeholder / C09_get_set_placeholder over the Keep constructor); the catalogue (model/PropCatalogue.v) instantiates them for the public properties, with value domains and quanta taken from gen/GenC11.v; C09_catalogue_complete forces every settable property (regenerated from /repo each run) into the catalogue or the committed oracle-only list. The check compares the model's exact predicted outcome, read-back and element state with the implementation over random histories -- from fresh objects, corpus objects and schema-derived foreign pre-states (every enumeration value / alternative child / optional element of what a getter reads or a setter writes) -- and runs the property's statement directly (read-after-write, re-open, None, rejection leaves XML unchanged, sibling readings unchanged).",
+    "note": "proxy-level plumbing is hand-transcribed (tied by correspondence); oracle-only properties are not covered by a theorem; quantum bounds are proved for EMU, centipoints, percentages and rotation, the other float conversions are checked bit-exactly only; reject-with-unchanged-state is REFUTED by the model for the setters that mutate before validating (witness theorems + replay); the real parser leaves the reader of XmlTree.v in one known place (a blank-only text of about 250 blanks or more ending on a 4000-byte input-block boundary is dropped by libxml2: known finding, deterministic probe); comments, PIs, CDATA, mixed content and xml:space are outside XmlTree.v (none occurs in the corpus parts).",
     "ref": "6/C09",
 }
